@@ -11,7 +11,7 @@ import (
 func init() {
 	Register(&Property{
 		ID:    "C46",
-		Floor: 35,
+		Floor: 42,
 		Clauses: "webdav COPY/MOVE, structural necessary conditions: in Handler.handleCopyMove the source==destination test compares two canonicalised paths (both operands are slashClean/path.Clean results, one of the stripPrefix'ed request path, one of the stripPrefix'ed Destination path), its equal edge reaches neither copyFiles nor moveFiles and the test dominates both; an empty destination is refused first; " +
 			"copyFiles/moveFiles receive exactly the tested (src, dst) in that order, copyFiles only under Method == \"COPY\" and moveFiles only otherwise, after confirmLocks; they have no other callers (copyFiles also recurses, with src-derived src, dst-derived dst and recursion+1 under the 1000 bound); " +
 			"copyFiles opens src read-only (flag 0) before any RemoveAll, every RemoveAll/Mkdir/writable OpenFile is on dst, RemoveAll(dst) only when dst exists and overwrite is set, io.Copy writes into the dst file from the src file, and copyFiles never renames; " +
@@ -52,13 +52,13 @@ func c46(c *Ctx) {
 	src, dst := Term(srcCall)+"#0", Term(dstCall)+"#0"
 	isSrc := func(v ssa.Value) bool { e, ok := v.(*ssa.Extract); return ok && e.Tuple == srcCall && e.Index == 0 }
 	isDst := func(v ssa.Value) bool { e, ok := v.(*ssa.Extract); return ok && e.Tuple == dstCall && e.Index == 0 }
-	fromSrc := func(v ssa.Value) bool { return IsStringType(v) && DependsOn(v, isSrc) && !DependsOn(v, isDst) }
-	fromDst := func(v ssa.Value) bool { return IsStringType(v) && DependsOn(v, isDst) && !DependsOn(v, isSrc) }
+	fromSrc := func(v ssa.Value) bool { return WdIsStringType(v) && DependsOn(v, isSrc) && !DependsOn(v, isDst) }
+	fromDst := func(v ssa.Value) bool { return WdIsStringType(v) && DependsOn(v, isDst) && !DependsOn(v, isSrc) }
 
 	// ---- F2: the equality test is on canonical forms
 	rule := "canonical-compare"
 	construct := hcm + ": both operands of the source==destination test are canonicalised (slashClean/path.Clean)"
-	tests := CmpBranches(fn, fromSrc, fromDst)
+	tests := WdCmpBranches(fn, fromSrc, fromDst)
 	canon := IsCallTo("webdav.slashClean", "path.Clean")
 	var good []*ssa.If
 	if len(tests) == 0 {
@@ -66,7 +66,7 @@ func c46(c *Ctx) {
 	} else {
 		ok := true
 		for _, ifi := range tests {
-			x, y := CmpOperands(ifi)
+			x, y := WdCmpOperands(ifi)
 			if canon(x) && canon(y) {
 				good = append(good, ifi)
 				continue
@@ -81,10 +81,10 @@ func c46(c *Ctx) {
 	construct = hcm + ": the canonical source==destination test dominates copyFiles/moveFiles and its equal edge reaches neither"
 	okDom := false
 	for _, ifi := range good {
-		eq, _ := EqEdge(ifi)
+		eq, _ := WdEqEdge(ifi)
 		all := true
 		for _, w := range work.F(c.P, fn) {
-			if !InstrDominates(ifi, w) || BlockReaches(eq, w) {
+			if !WdInstrDominates(ifi, w) || WdBlockReaches(eq, w) {
 				all = false
 			}
 		}
@@ -203,8 +203,8 @@ func c46(c *Ctx) {
 	c.Count(moveF, Calls(".Rename").Where("(src,dst)", func(in ssa.Instruction) bool { return isArg(1, "$2")(in) && isArg(2, "$3")(in) }), 1, 1)
 	c.Count(moveF, Calls(".Rename"), 1, 1)
 	c.Count(moveF, Calls(".OpenFile", ".Mkdir"), 0, 0)
-	c.Reject(moveF, RetOKAny(), ".Rename($1,$0,$2,$3) != nil")
-	c.Before(moveF, Calls(".Rename"), RetOKAny())
+	c.Reject(moveF, WdRetOKAny(), ".Rename($1,$0,$2,$3) != nil")
+	c.Before(moveF, Calls(".Rename"), WdRetOKAny())
 	c.NeverAfter(moveF, c.Edge(".RemoveAll($1,$0,$3) != nil"), Calls(".Rename"), true)
 	c.Reject(moveF, Calls(".Rename", ".RemoveAll"), ".Stat($1,$0,$3)#1 != nil", "!IsNotExist(.Stat($1,$0,$3)#1)")
 	// everything done to src in moveFiles is that Rename
@@ -217,7 +217,7 @@ func c46(c *Ctx) {
 					continue
 				}
 				for _, a := range ci.Common().Args {
-					if IsParam(mf, 2)(a) {
+					if WdIsParam(mf, 2)(a) {
 						n++
 						if !ci.Common().IsInvoke() || ci.Common().Method.Name() != "Rename" {
 							bad = DescribeInstr(in)
